@@ -116,8 +116,15 @@ pub fn parse_datetime(s: &str) -> Result<(NaiveDateTime, NaiveDateTime), String>
                     _ => Err("Error parsing date/time value: ".to_string() + s),
                 }
             } else if s.len() >= 2 && (s.starts_with("+") || s.starts_with("-")) {
-                let days = s.parse::<i64>().unwrap();
-                let date = Local::now().date_naive() + Duration::days(days);
+                let date = s
+                    .parse::<i64>()
+                    .ok()
+                    .and_then(Duration::try_days)
+                    .and_then(|days| Local::now().date_naive().checked_add_signed(days));
+                let date = match date {
+                    Some(date) => date,
+                    None => return Err("Error parsing date/time value: ".to_string() + s),
+                };
                 let start = date.and_hms_opt(0, 0, 0).unwrap();
                 let finish = date.and_hms_opt(23, 59, 59).unwrap();
 
